@@ -394,7 +394,9 @@ class FileWriter(FileBase):
             packed = pack(arr, self.bitsinfo.nbits, bitorder=self.bitsinfo.bitorder)
             packed.tofile(self.file_obj)
         else:
-            arr.tofile(self.file_obj)
+            # Write the declared sample type, whatever dtype the array arrives in
+            # (tofile writes the array's own itemsize).
+            arr.astype(self.bitsinfo.dtype, copy=False).tofile(self.file_obj)
 
     def write(self, bo: bytes) -> None:
         """Write the given bytes-like object, bo to the file stream.
